@@ -58,7 +58,7 @@ static void schur_case(int n, const std::string& kind)
                 sym::check_identity("UTU'=H(" + std::to_string(i) + "," + std::to_string(j) + ")", L(i, j), H(i, j));
     }
     // quasi-triangular: a non-zero T(1,0) is only allowed for a complex pair (negative discriminant)
-    if (n == 2 && T(1, 0).is_sym())
+    if (n == 2 && (T(1, 0).is_sym() || T(1, 0).value() != 0.0))
     {
         Real p = (H(0, 0) - H(1, 1)) * Real(0.5);
         Real q = p * p + H(1, 0) * H(0, 1);
